@@ -26,7 +26,7 @@ IO_MUTATING = {"write", "seek", "flush", "close", "truncate", "resize", "writeli
 READONLY = {"tofile", "tobytes", "index", "count", "get", "keys", "items", "values", "read", "getvalue", "fileno",
             "copy", "lower", "upper", "encode", "decode", "digest", "hexdigest", "format", "join", "startswith",
             "endswith", "exists", "expanduser", "resolve", "open", "find", "rfind", "tolist", "bit_length", "strip",
-            "split", "readline", "tell", "is_file", "size", "closed", "unpack", "unpack_from", "pack", "hex", "buffer_info"}
+            "split", "readline", "tell", "is_file", "size", "closed", "unpack", "unpack_from", "pack", "hex", "buffer_info", "fromhex", "isdigit", "replace", "zfill", "rjust", "ljust", "title", "name", "stem", "parent", "with_suffix", "is_dir", "stat", "as_posix"}
 FILE_CTORS = {"open", "BytesIO", "MMap", "mmap"}
 IO_TYPES = {"IOBase", "mmap"}
 BYTES_TYPES = {"bytes", "bytearray", "memoryview"}
@@ -1104,6 +1104,22 @@ class Walker:
         argnodes = list(n.args)
         kwnodes = [k.value for k in n.keywords]
         kwnames = [k.arg for k in n.keywords]
+        if isinstance(n.func, ast.Attribute):
+            # method call syntax: resolve through the receiver's class when known, else a generic method call
+            for s, base in self.ev(n.func.value, st):
+                known = base[0] in ("struct", "extmod", "ext", "super", "cls") or self.typeof(base, s) is not None
+                for s2, vals in self.ev_seq(argnodes + kwnodes, s):
+                    args = vals[:len(argnodes)]
+                    kwargs = dict(zip(kwnames, vals[len(argnodes):]))
+                    if not known:
+                        out.extend(self.generic_mcall(base, n.func.attr, args, kwargs, s2, n))
+                        continue
+                    for s3, fn in self.get_attr(base, n.func.attr, s2, n.func):
+                        if fn[0] == "f" and base[0] in ("ext", "extmod"):
+                            out.extend(self.do_call(fn, args, kwargs, s3, n))
+                        else:
+                            out.extend(self.do_call(fn, args, kwargs, s3, n))
+            return out
         for s, vals in self.ev_seq([n.func] + argnodes + kwnodes, st):
             fn = vals[0]
             args = vals[1:1 + len(argnodes)]
